@@ -17,8 +17,44 @@ enum Target {
     Fn { head: String, sig: Sig, monadic: bool },
 }
 
+/// aarch64 NEON intrinsics the source may use: `v<op>q_<ty>` (quad-register forms) and the across-lane `v<op>vq_<ty>`
+pub fn is_neon_intrinsic(name: &str) -> bool {
+    neon_suffix_scalar(name).is_some()
+        && name.starts_with('v')
+        && (name.contains("q_"))
+        && !name.starts_with("value")
+}
+
+/// element type named by a NEON intrinsic's suffix (`_f32`, `_s8`, `_u64`, ...)
+pub fn neon_suffix_scalar(name: &str) -> Option<&'static str> {
+    let suf = name.rsplit('_').next()?;
+    Some(match suf {
+        "f32" => "f32",
+        "f64" => "f64",
+        "s8" => "i8",
+        "s16" => "i16",
+        "s32" => "i32",
+        "s64" => "i64",
+        "u8" => "u8",
+        "u16" => "u16",
+        "u32" => "u32",
+        "u64" => "u64",
+        _ => return None,
+    })
+}
+
 pub fn intrinsic_ret_ty(name: &str) -> Ty {
     let scalar = |s: &str| Ty::Scalar(s.to_string());
+    if is_neon_intrinsic(name) {
+        if name.starts_with("vst1q_") {
+            return Ty::Unit;
+        }
+        // across-lane reductions return the element type
+        if name.starts_with("vaddvq_") || name.starts_with("vmaxvq_") || name.starts_with("vminvq_") {
+            return scalar(neon_suffix_scalar(name).unwrap());
+        }
+        return Ty::Reg(128);
+    }
     if name == "_mm_cvtss_f32" {
         return scalar("f32");
     }
@@ -170,6 +206,23 @@ impl<'a> Ctx<'a> {
         let segs: Vec<String> = p.path.segments.iter().map(|s| s.ident.to_string()).collect();
         let last_seg = p.path.segments.last()?;
         let name = segs.last()?.clone();
+        // `core::cmp::max(a, b)` / `core::cmp::min(a, b)` on integers: `Ord::max` / `Ord::min`
+        if segs.len() == 3 && segs[0] == "core" && segs[1] == "cmp" && (name == "max" || name == "min") {
+            if let Some(Ty::Scalar(ety)) = args.first().map(|a| self.peek_ty(a)) {
+                if is_concrete_scalar(&ety) && !ety.starts_with('f') {
+                    let pty = Ty::Scalar(ety.clone());
+                    let sig = Sig {
+                        lean_name: name.clone(),
+                        generics: vec![],
+                        params: args.iter().enumerate().map(|(k, _)| (format!("a{k}"), pty.clone())).collect(),
+                        ret: pty.clone(),
+                        takes_env: true,
+                        pure_fn: true,
+                    };
+                    return Some(Target::Fn { head: format!("{}.{name} E", lean_scalar(&ety)), sig, monadic: false });
+                }
+            }
+        }
         if segs.len() == 2 {
             let head = segs[0].clone();
             // dictionaries in scope
@@ -223,9 +276,11 @@ impl<'a> Ctx<'a> {
                 return Some(Target::Fn { head: format!("{inst}.{name}"), sig, monadic: true });
             }
             let head_sub = self.subst_name(&head);
-            if is_concrete_scalar(&head_sub) || head == "intrinsics" {
-                // primitive associated functions: f32::sqrt(a), f32::from_bits(x), intrinsics::fadd_algebraic(a, b)
-                let mut ety = if head == "intrinsics" { None } else { Some(head_sub.clone()) };
+            let cmp_fn = head == "cmp" && (name == "max" || name == "min");
+            if is_concrete_scalar(&head_sub) || head == "intrinsics" || cmp_fn {
+                // primitive associated functions: f32::sqrt(a), f32::from_bits(x), intrinsics::fadd_algebraic(a, b),
+                // core::cmp::max(a, b) on integers (= `Ord::max`, the model's `I64.max` / `U64.max`)
+                let mut ety = if head == "intrinsics" || cmp_fn { None } else { Some(head_sub.clone()) };
                 if ety.is_none() {
                     if let Some(a0) = args.first() {
                         if let Ty::Scalar(s) = self.peek_ty(a0) {
@@ -262,16 +317,17 @@ impl<'a> Ctx<'a> {
             }
         }
         // intrinsics
-        if name.starts_with("_mm") && !name.starts_with("_MM") {
+        let neon = is_neon_intrinsic(&name);
+        if (name.starts_with("_mm") && !name.starts_with("_MM")) || neon {
             self.intrinsics.insert(name.clone());
-            let mut head = format!("X86.{name} E");
+            let mut head = if neon { format!("Neon.{name} E") } else { format!("X86.{name} E") };
             for ga in self.generic_arg_strings(last_seg) {
                 let v = self.const_generic(&ga, out);
                 head.push(' ');
                 head.push_str(&v);
             }
-            let is_load = name.contains("loadu");
-            let is_store = name.contains("storeu");
+            let is_load = name.contains("loadu") || name.starts_with("vld1q_");
+            let is_store = name.contains("storeu") || name.starts_with("vst1q_");
             let mut params: Vec<(String, Ty)> = vec![];
             for (k, a) in args.iter().enumerate() {
                 let t = if (is_load || is_store) && k == 0 {
@@ -451,7 +507,7 @@ impl<'a> Ctx<'a> {
     pub fn peek_call_ty(&self, c: &syn::ExprCall) -> Ty {
         if let syn::Expr::Path(p) = &*c.func {
             let name = p.path.segments.last().map(|s| s.ident.to_string()).unwrap_or_default();
-            if name.starts_with("_mm") {
+            if name.starts_with("_mm") || is_neon_intrinsic(&name) {
                 return intrinsic_ret_ty(&name);
             }
             if name == "transmute" {
